@@ -1,5 +1,6 @@
 """C05 - taproot: the root binds key and script; key path and script path are exact."""
 import hashlib, random, sys
+from ..par import SafePool
 from ..common import Report, REPO
 from .. import scncheck
 from ..gen.progs import push, op, b1
@@ -196,7 +197,7 @@ def main(tier: str, seed: int) -> int:
     scncheck.mc(rep, 'Taproot', 'mc', INV, run_mc, workers=4)
     import multiprocessing as mp
     n = 6000 if quick else 40000
-    with mp.get_context('fork').Pool(14) as pool:
+    with SafePool(14) as pool:
         cases = [c for ch in pool.map(record_random, [(seed * 43 + i, n // 28) for i in range(28)]) for c in ch]
     scncheck.judge(rep, 'Taproot', [], cases, 'random taproot scenarios')
     return rep.finish()
